@@ -5,7 +5,7 @@ bounds, dangling leading operator, prefix, look-ahead); or - on domain D1 - a va
 abbreviation embedded after a documented left context that is not returned exactly."""
 import re
 
-from .. import core, enum, gen_abbr, probes
+from .. import core, forms, enum, gen_abbr, probes
 
 ID = 'C11'
 RULE = ('consistency: every line up to the bound over the 16-symbol alphabet "a*^ >+[]{}()\\"=</" x every position -1..len+1 x 7 option sets, plus random '
@@ -25,6 +25,9 @@ BOUNDS = {'quick': {'maxlen': 4, 'random': 1500, 'roundtrip': 1500}, 'thorough':
 FLOORS = {'quick': {'consistency:enum': 2500000, 'consistency:random': 100000, 'roundtrip:d1': 9000, 'roundtrip:d2': 2500, 'roundtrip:stylesheet': 2500},
           'thorough': {'consistency:enum': 50000000, 'consistency:random': 3000000, 'roundtrip:d1': 220000, 'roundtrip:d2': 60000, 'roundtrip:stylesheet': 60000}}
 REQUIRED_MONITORS = ['oracle:consistency', 'oracle:roundtrip-d1', 'oracle:roundtrip-d2']
+
+
+FORM = [0]
 
 
 def describe(tier):
@@ -86,7 +89,13 @@ class Mon:
         ctx = self.ctx
         ctx.ev(cls)
         ctx.mon('oracle:consistency')
-        r = core.call(self.extract, line, pos, opt) if opt is not None else core.call(self.extract, line, pos)
+        FORM[0] += 1
+        if FORM[0] % 9 == 0:
+            # the same arguments in another legal form: the line as a str subclass that shows something else, the options as another Mapping
+            self.ctx.mon('form:line-and-options')
+            r = core.call(self.extract, forms.Shown(line), pos, forms.mapping_form(opt, FORM[0] // 9)) if opt is not None else core.call(self.extract, forms.Shown(line), pos)
+        else:
+            r = core.call(self.extract, line, pos, opt) if opt is not None else core.call(self.extract, line, pos)
         case = {'check': 'consistency', 'line': line, 'pos': pos, 'options': opt}
         if r[0] == 'exc':
             ctx.violation('exception', case, {'exc': list(core.exc_site(r[1])), 'msg': str(r[1])[:100]})
@@ -121,7 +130,8 @@ class Mon:
         if prefix:
             o['prefix'] = prefix
         case = {'check': 'roundtrip', 'line': line, 'pos': pos, 'options': o, 'A': A, 'left': left, 'prefix': prefix, 'domain': domain, 'pattern': pattern}
-        r = core.call(self.extract, line, pos, o)
+        FORM[0] += 1
+        r = core.call(self.extract, forms.Shown(line), pos, forms.mapping_form(o, FORM[0] // 9)) if FORM[0] % 9 == 0 else core.call(self.extract, line, pos, o)
         if r[0] == 'exc':
             ctx.violation('exception', case, {'exc': list(core.exc_site(r[1])), 'msg': str(r[1])[:100]})
             return
